@@ -12,7 +12,7 @@ namespace NA.PanOs
 
 /-- New names of the target's address-groups (`genUniqGroupNames`). -/
 def newGroupNames (a b : Vsys) : List String :=
-  uniqNames ((sortVsys a).groups.map (·.name)) ((sortVsys b).groups.map (·.name))
+  groupNamesFor (sortVsys a) (sortVsys b)
 
 def isGrpOf (v : Vsys) (x : String) : Bool := v.groups.any (·.name == x)
 
